@@ -106,6 +106,8 @@ struct ModelCfg {
     namemeta: i64,
     index_end: i64,
     buckets: BTreeMap<String, i64>,
+    /// Names the specification calls long (Archive.tla, LongNames): they get more bytes.
+    long: BTreeMap<String, bool>,
 }
 
 impl ModelCfg {
@@ -118,6 +120,8 @@ impl ModelCfg {
             index_end: c["indexend"].as_i64().expect("c.indexend"),
             buckets: c["buckets"].as_object().expect("c.buckets").iter()
                 .map(|(k, v)| (k.clone(), v.as_i64().unwrap())).collect(),
+            long: c["long"].as_object().map(|m| m.iter().map(|(k, v)| (k.clone(), v.as_bool().unwrap_or(false))).collect())
+                .unwrap_or_default(),
         }
     }
 
@@ -621,8 +625,10 @@ fn pick_names(cfg: &ModelCfg, key: &[u8; 16], salt: u64) -> BTreeMap<String, Vec
     let mut res = BTreeMap::new();
     for (n, mb) in &cfg.buckets {
         let mut ctr = salt % 1000;
+        // names of one length class have one length; the long ones are 1..8 bytes longer
+        let width = 7 + if cfg.long.get(n).copied().unwrap_or(false) { 1 + (salt / 1000 % 8) as usize } else { 0 };
         loop {
-            let cand = format!("{n}{ctr:07}").into_bytes();
+            let cand = format!("{n}{ctr:0width$}").into_bytes();
             let rb = real_bucket(key, &cand);
             let ok = match bucket_of_model.get(mb) {
                 Some(want) => *want == rb,
